@@ -12,6 +12,7 @@ import numpy as np
 
 from vp import gen, probe, refmodels as rm
 from vp import defaults
+from vp import reuse
 
 RULE = ('seeded generator: field shapes 1..7 per side (even/odd/non-square/one-element), integer offsets in '
         '[-12,12] of either sign incl. negative-only extents and fields wholly outside the target, target '
@@ -314,6 +315,7 @@ def _bbox(cs):
 
 def workload(ctx, lentil):
     defaults.run(ctx, lentil, 'C06', 'mul=canvas')
+    reuse.run(ctx, lentil, 'C06', 'mul=canvas')
     rng = ctx.rng
     F = lentil.field
     E = lentil.extent
